@@ -34,11 +34,11 @@ bool tagUnitsMatchRefsUnits::operator()(const std::vector<DataArray> &references
                 du = dims_units[i];
                 if (du != "none") {
                     if (!tu.empty() && tu != "none") {
-                        match = util::isScalable(tu, du); 
+                        match = match && util::isScalable(tu, du);
                     }
                 }
             } else {
-                match = !tu.empty() || tu != "none";
+                match = match && (!tu.empty() || tu != "none");
             }
         }
         if (!match)
